@@ -204,7 +204,7 @@ class Stream(ModelMixin["Stream"], Base):
         if not commit:
             return mf
         db.session.commit()
-        return MediaFile.get(name=filename.stem, stream=self)
+        return MediaFile.get(name=filename.stem.lower(), stream=self)
 
     def track_summary(self) -> StreamTrackSummary:
         """
